@@ -12,7 +12,7 @@
 (*   Mode "fields1" : batches of <= MaxItems items, every vector one field away *)
 (*                    from the base (leaks between neighbouring items)          *)
 (*   Mode "sev"     : log records with every one of the 25 severity numbers     *)
-EXTENDS OtlpModel, TLC, Json
+EXTENDS OtlpModel, Pairwise, TLC, Json
 
 CONSTANTS Sig, Mode, ResIdx, ScopeIdx, MaxItems
 
@@ -102,12 +102,6 @@ DP3 == [da |-> "dp3", start |-> "tzero", time |-> "t2", val |-> "v0", cnt |-> "k
 Dom(sig) == CASE sig = "trace" -> TraceDom [] sig = "zipkin" -> ZipkinDom
               [] sig = "log" -> LogDom [] sig = "metric" -> MetricDom
 
-Base(D) == [f \in DOMAIN D |-> D[f][1]]
-Variant(D, k) == [f \in DOMAIN D |-> D[f][((k - 1) % Len(D[f])) + 1]]
-Vary1(D) == {[Base(D) EXCEPT ![f] = D[f][i]] : <<f, i>> \in {<<f, i>> \in (DOMAIN D) \X (1..40) : i <= Len(D[f])}}
-Vary2(D) == {[v EXCEPT ![f] = D[f][i]] :
-                <<v, f, i>> \in {<<v, f, i>> \in Vary1(D) \X (DOMAIN D) \X (1..40) : i <= Len(D[f])}}
-
 (* input combinations that do not exist (a float-only value in an int64 metric; *)
 (* a log record with neither of the two carriers of the item id)                *)
 FloatOnly == {"vnan", "vinf", "vninf", "vnegzero"}
@@ -128,7 +122,7 @@ Choices(pos) ==
   CASE Mode = "group"   -> {Expand(Sig, Fix(Sig, Variant(Dom(Sig), pos)))}
     [] Mode = "fields2" -> {Expand(Sig, Fix(Sig, v)) : v \in Vary2(Dom(Sig))}
     [] Mode = "fields1" -> {Expand(Sig, Fix(Sig, v)) : v \in Vary1(Dom(Sig))}
-    [] Mode = "sev"     -> {[Base(LogDom) EXCEPT !.sev = SevAll[i]] : i \in 1..25}
+    [] Mode = "sev"     -> {[Base(LogDom) EXCEPT !.sev = s] : s \in Range(SevAll) \cup {"sevout"}}
 
 -----------------------------------------------------------------------------
 Init == batch = <<>>
